@@ -37,7 +37,9 @@ var kindNames = map[string]error{
 }
 
 var txFinishedStates = []string{"rw-committed", "rw-rolledback", "rw-closed", "ro-closed", "ro-committed", "ro-rolledback"}
-var pageStates = []string{"clean", "loaded", "dirty", "new-empty", "new-dirty", "flushed", "freed"}
+// "new-freed-refetched": allocated and freed again in the running transaction,
+// handle obtained by another tx.Page(id) call afterwards
+var pageStates = []string{"clean", "loaded", "dirty", "new-empty", "new-dirty", "flushed", "freed", "new-freed-refetched"}
 
 // MisuseCells enumerates the finite matrix.
 func MisuseCells() []MisuseCell {
@@ -108,7 +110,7 @@ func MisuseCells() []MisuseCell {
 			add("page", ps, "SetBytes(oversize)", "InvalidParam")
 		case "clean", "loaded":
 			add("page", ps, "SetBytes(oversize)", "InvalidParam")
-		case "flushed", "freed":
+		case "flushed", "freed", "new-freed-refetched":
 			for _, m := range []string{"Load", "SetBytes(small)", "SetBytes(full)", "MarkDirty", "Free", "Flush"} {
 				add("page", ps, m, "InvalidOp")
 			}
@@ -551,6 +553,42 @@ func RunMisuseCell(c *core.Case, cell MisuseCell, res *core.Result) {
 			if w.getTxPage(id) == nil || !w.Free(id) {
 				return
 			}
+		case "new-freed-refetched":
+			before := len(w.txOrder)
+			if !w.Alloc(3, 0) {
+				return
+			}
+			if len(w.txOrder) < before+3 {
+				res.Status, res.Note = core.Inconclusive, "alloc-not-possible-file-full"
+				w.End(OClose)
+				return
+			}
+			id = w.txOrder[before] // not the last page of the file
+			if !w.Free(id) {
+				return
+			}
+			var pg *txfile.Page
+			var err error
+			tx := w.Tx
+			if w.guard("Tx.Page(new page freed in this transaction)", func() { pg, err = tx.Page(id) }) {
+				return
+			}
+			if err != nil {
+				// refusing access to the freed page is the documented outcome as well
+				if !txerr.Is(txfile.InvalidOp, err) && !txerr.Is(txfile.InvalidPageID, err) {
+					fail("misuse-kind", "Tx.Page of a page freed in this transaction failed with kinds [%s]", allKinds(err))
+					return
+				}
+				res.Add("refetch_refused", 1)
+				w.End(OCommit)
+				return
+			}
+			if !check(pageMethod(pg, cell.Method)) {
+				return
+			}
+			res.Add("refetched_freed_new_pages", 1)
+			w.End(OCommit)
+			return
 		case "new-empty", "new-dirty":
 			before := len(w.txOrder)
 			fill := 0
